@@ -40,8 +40,10 @@ Proof.
             t_extra := []; t_auth := SigMaps [] |}.
   split; [|split; vm_compute; reflexivity].
   unfold wf_tx_lim. cbn [t_version t_asset t_inputs t_outputs t_refs t_extra t_auth].
-  repeat split; try constructor; try (vm_compute; first [reflexivity | discriminate]).
-  apply Forall_forall. intros x Hx. apply repeat_spec in Hx. subst x. vm_compute. reflexivity.
+  split; [reflexivity|]. split; [vm_compute; reflexivity|]. split; [constructor|]. split; [constructor|].
+  split; [apply Forall_forall; intros x Hx; apply repeat_spec in Hx; subst x; vm_compute; reflexivity|].
+  split; [vm_compute; discriminate|].
+  split; [split; [constructor | vm_compute; discriminate]|]. vm_compute. reflexivity.
 Qed.
 Print Assumptions C06_roundtrip_encoder_guards_only_refuted.
 
